@@ -30,6 +30,7 @@ def one_run(spec):
 def build_specs(ctx, d):
     """[(group name, [run specs]; the first spec of a group is its reference)]"""
     small = runs.write_input(os.path.join(d, "tiny.tsv"), runs.make_rows(ctx.rng, 4, 2, depth=(15, 40)))
+    rich = runs.write_input(os.path.join(d, "rich.tsv"), runs.make_rows(ctx.rng, 6, 1, depth=(8, 20)))
     example = os.path.join(runs.REPO, "examples", "data", "mixing_small.tsv")
     seed = ctx.rng.randrange(1, 10**6)
     groups = []
@@ -57,6 +58,15 @@ def build_specs(ctx, d):
     ctl["args"][ctl["args"].index("--seed") + 1] = str(seed + 1)
     g.append(ctl)
     groups.append(("one-chain", g))
+    # --- one chain, outlier-rich: a high outlier prior keeps several data points in the outlier set, so any code
+    # path that iterates over a set / dict of outliers (hash-seed dependent order) feeds the generator differently
+    a = ["--proposal", "fully-adapted", "--outlier-prob", 0.45, "--subtree-update-prob", 0.3]
+    g = [spec("one-chain-outlier-rich", "reference", rich, 1, a)]
+    for hs in (["1", "2", "12345", None] if not ctx.quick else ["1", "2", None]):
+        g.append(spec("one-chain-outlier-rich", "hashseed=%s" % ("random" if hs is None else hs), rich, 1, a, hashseed=hs))
+    for sp in g:
+        sp["args"][sp["args"].index("-n") + 1] = "12"
+    groups.append(("one-chain-outlier-rich", g))
     # --- two chains: every start order and every completion order
     a = ["--proposal", "fully-adapted", "--grid-size", 41]
     g = [spec("two-chains", "reference", small, 2, a)]
@@ -117,6 +127,47 @@ def build_specs(ctx, d):
     return groups, seed
 
 
+def hash_probe(ctx):
+    """library-level probe: seeded sweeps of every sampler from trees holding several outliers (string-named data
+    points), run in fresh interpreters under different PYTHONHASHSEED values; the transcripts must be identical."""
+    import subprocess
+    import sys
+
+    seed = ctx.rng.randrange(1, 10**6)
+    outs = {}
+
+    def one(hs):
+        env = dict(os.environ, PYTHONPATH=os.pathsep.join([runs.REPO, os.path.dirname(os.path.dirname(os.path.abspath(runs.__file__)))]))
+        if hs is None:
+            env.pop("PYTHONHASHSEED", None)
+            env["PYTHONHASHSEED"] = "random"
+        else:
+            env["PYTHONHASHSEED"] = hs
+        p = subprocess.run([sys.executable, "-m", "pv.hashprobe", str(seed)], env=env, capture_output=True, text=True, timeout=1200)
+        return hs, p.returncode, p.stdout, p.stderr[-500:]
+
+    hss = ["0", "1", "2", "3", None] if ctx.quick else ["0", "1", "2", "3", "4", "12345", None, None]
+    with ThreadPoolExecutor(max_workers=4) as ex:
+        res = list(ex.map(one, hss))
+    ref = res[0]
+    if ref[1] != 0 or not ref[2].strip():
+        ctx.broken_tie("hash probe reference run failed: %s" % ref[3])
+        return
+    ref_lines = ref[2].splitlines()
+    for hs, rc, out, err in res[1:]:
+        ctx.case(key=("hashprobe", hs if hs else "random%d" % len(ctx.distinct)), nontrivial=True)
+        ctx.count("hashprobe_lines", len(ref_lines))
+        if rc != 0:
+            ctx.fail("C18:library-sweeps:hashseed:run-failed", "probe under PYTHONHASHSEED=%s exits %d: %s" % (hs, rc, err), {"seed": seed, "hashseed": hs})
+            continue
+        lines = out.splitlines()
+        if lines != ref_lines:
+            k = next((i for i, (a, b) in enumerate(zip(lines, ref_lines)) if a != b), min(len(lines), len(ref_lines)))
+            ctx.fail("C18:library-sweeps:hashseed:transcript-differs", "seeded sampler sweeps differ between PYTHONHASHSEED=0 and %s from step %d on" % (hs or "random", k),
+                     {"seed": seed, "hashseed": hs, "how": "PYTHONHASHSEED=<h> python -m pv.hashprobe %d" % seed,
+                      "reference_line": ref_lines[k] if k < len(ref_lines) else None, "line": lines[k] if k < len(lines) else None})
+
+
 def run(ctx):
     coq.check_property_file(ctx)
     ctx.rule = (
@@ -125,6 +176,7 @@ def run(ctx):
         "quick: 3) of 3 chains, start orders, forced by the delay hook; per-chain traces compared entry by entry with float.hex; non-trivial = every variation run; distinct = (group, variation)"
     )
     ctx.exhaustive = False
+    hash_probe(ctx)
     d = runs.tmpdir("C18_%d" % os.getpid())
     groups, seed = build_specs(ctx, d)
     allspecs = [s for _, g in groups for s in g]
